@@ -169,6 +169,55 @@ def message_spans(lines):
     return spans
 
 
+def hsfail_convs(tier, rng):
+    """STARTTLS is accepted (220) and then the peer does not speak TLS: the handshake fails, the server says so (550) and the
+    conversation goes on in plaintext.  Nothing may have changed: the plaintext session is still the session (not logged out, and
+    then used), the connection is still insecure (no AUTH unless insecure authentication is allowed, NewSession sees no TLS), the
+    envelope is what it was."""
+    from vlib.gen import hx
+    cases = []
+    garbage = [b"GET / HTTP/1.0\r\n\r\n", b"NOOP\r\n", b"\x16\x03\x01\x00\x05hello", b"EHLO again\r\n"]
+    posts = [
+        [(b"NOOP\r\n", {}), (b"QUIT\r\n", {})],
+        [(b"MAIL FROM:<s@x.org>\r\n", dict(MAIL="ok")), (b"RCPT TO:<a@x.org>\r\n", dict(RCPT="ok")), (b"QUIT\r\n", {})],
+        [(b"AUTH PLAIN AGFiAHB3\r\n", dict(AUTH="ok", SASL="-!1!ok")), (b"MAIL FROM:<s@x.org>\r\n", dict(MAIL="ok")), (b"NOOP\r\n", {})],
+        [(b"EHLO second.example\r\n", dict(NS="ok")), (b"AUTH PLAIN AGFiAHB3\r\n", dict(AUTH="ok", SASL="-!1!ok")),
+         (b"MAIL FROM:<s@x.org>\r\n", dict(MAIL="ok")), (b"QUIT\r\n", {})],
+        [(b"RCPT TO:<b@y.net>\r\n", dict(RCPT="ok")), (b"DATA\r\n", {}), (b"hi\r\n.\r\n", dict(DATA=g.ddec())), (b"NOOP\r\n", {})],
+        [],     # the peer goes away
+    ]
+    pres = [
+        [],
+        [(b"MAIL FROM:<s@x.org>\r\n", dict(MAIL="ok")), (b"RCPT TO:<a@x.org>\r\n", dict(RCPT="ok"))],
+        [(b"MAIL FROM:<s@x.org>\r\n", dict(MAIL="ok")), (b"RCPT TO:<a@x.org>\r\n", dict(RCPT="ok")), (b"BDAT 3\r\nabc", dict(DATA=g.ddec(ret="prop")))],
+    ]
+    for lm in (0, 1):
+        for ins in (0, 1):
+            for pre in pres:
+                for post in posts:
+                    gb = rng.choice(garbage)
+                    c = g.Conv(dict(lmtp=lm, tls="avail", insecure=ins, authsess=1, mechs=hx(b"PLAIN"), reqtls=1))
+                    c.add((b"LHLO" if lm else b"EHLO") + b" first.example\r\n", NS="ok")
+                    if ins and rng.random() < 0.5:
+                        c.add(b"AUTH PLAIN AGFiAHB3\r\n", AUTH="ok", SASL="-!1!ok")
+                    for line, kw in pre:
+                        c.add(line, **kw)
+                    c.add(b"STARTTLS\r\n", HS="0")
+                    k = len(c.lines)
+                    for line, kw in post:
+                        if lm and line.startswith(b"EHLO"):
+                            line = b"LHLO" + line[4:]
+                        c.add(line, **kw)
+                    f = c.case(seg="line").split("\t")
+                    segs, end = f[3].split(";")
+                    items = segs.split(",")
+                    # each c.add is one segment: the marker and the garbage go right behind the STARTTLS line
+                    items[k:k] = ["HSFAIL", hx(gb)]
+                    f[3] = ",".join(items) + ";" + end
+                    cases.append("\t".join(f))
+    return cases
+
+
 def cut_convs(tier, rng):
     convs = [
         ["EHLO", "MAIL", "RCPT-A", "DATA-ok", "NOOP", "QUIT"],
